@@ -159,8 +159,12 @@ fn run_episode(ep: &Value, epno: usize, cache: &mut HashMap<String, Vocab>, tr: 
         }
         match e1.compute_mask() {
             Ok(m) => tr.ev(json!({"ev":"Mask","e":1,"ok":1,"set":u32s_json(&mask_ids(&m))})),
-            Err(_) => {
-                tr.ev(json!({"ev":"Mask","e":1,"ok":0}));
+            Err(err) => {
+                if vh::err_class(&err.to_string()) == "limit" {
+                    tr.ev(json!({"ev":"Limit","e":1,"call":"mask"}));
+                } else {
+                    tr.ev(json!({"ev":"Mask","e":1,"ok":0}));
+                }
                 break;
             }
         }
@@ -169,8 +173,14 @@ fn run_episode(ep: &Value, epno: usize, cache: &mut HashMap<String, Vocab>, tr: 
             if rng.chance(40, 100) && !bytes_so_far.is_empty() {
                 let toks2 = c2.env.tokenize_bytes(&bytes_so_far);
                 let mut e2 = c2.matcher(&gram);
-                let ok = e2.consume_tokens(&toks2).is_ok();
-                tr.ev(json!({"ev":"Sync","e":2,"v":2,"toks":u32s_json(&toks2),"ok":ok as u32}));
+                let r2 = e2.consume_tokens(&toks2);
+                let lim2 = r2.as_ref().err().map(|x| vh::err_class(&x.to_string()) == "limit").unwrap_or(false);
+                let ok = r2.is_ok();
+                if lim2 {
+                    tr.ev(json!({"ev":"Limit","e":2,"call":"sync"}));
+                } else {
+                    tr.ev(json!({"ev":"Sync","e":2,"v":2,"toks":u32s_json(&toks2),"ok":ok as u32}));
+                }
                 if ok && !e2.is_stopped() {
                     let mut ids2: Vec<u32> = if v2.n() <= max_probe { (0..v2.n() as u32).collect() } else {
                         (0..max_probe).map(|_| rng.below(v2.n()) as u32).collect() };
@@ -184,7 +194,13 @@ fn run_episode(ep: &Value, epno: usize, cache: &mut HashMap<String, Vocab>, tr: 
                     tr.ev(json!({"ev":"Acc","e":2,"v":a2 as u32}));
                     match e2.compute_mask() {
                         Ok(m) => tr.ev(json!({"ev":"Mask","e":2,"ok":1,"set":u32s_json(&mask_ids(&m))})),
-                        Err(_) => tr.ev(json!({"ev":"Mask","e":2,"ok":0})),
+                        Err(err) => {
+                            if vh::err_class(&err.to_string()) == "limit" {
+                                tr.ev(json!({"ev":"Limit","e":2,"call":"mask"}))
+                            } else {
+                                tr.ev(json!({"ev":"Mask","e":2,"ok":0}))
+                            }
+                        }
                     }
                 }
             }
@@ -219,14 +235,24 @@ fn run_episode(ep: &Value, epno: usize, cache: &mut HashMap<String, Vocab>, tr: 
         if v1.is_special(t) {
             break; // token-identity lexemes are C19's business
         }
-        let ok1 = e1.consume_token(t).is_ok();
+        let r1 = e1.consume_token(t);
+        if r1.as_ref().err().map(|x| vh::err_class(&x.to_string()) == "limit").unwrap_or(false) {
+            tr.ev(json!({"ev":"Limit","e":1,"call":"consume"}));
+            break;
+        }
+        let ok1 = r1.is_ok();
         tr.ev(json!({"ev":"Consume","e":1,"t":t,"ok":ok1 as u32}));
         if !ok1 {
             break;
         }
         let w = v1.words[t as usize].clone();
         let btoks: Vec<u32> = w.iter().map(|&b| b as u32).collect();
-        let ok0 = e0.consume_tokens(&btoks).is_ok();
+        let r0 = e0.consume_tokens(&btoks);
+        if r0.as_ref().err().map(|x| vh::err_class(&x.to_string()) == "limit").unwrap_or(false) {
+            tr.ev(json!({"ev":"Limit","e":0,"call":"consume_bytes"}));
+            break;
+        }
+        let ok0 = r0.is_ok();
         tr.ev(json!({"ev":"ConsumeBytes","e":0,"b":bytes_json(&w),"ok":ok0 as u32}));
         if !ok0 {
             break;
@@ -236,7 +262,10 @@ fn run_episode(ep: &Value, epno: usize, cache: &mut HashMap<String, Vocab>, tr: 
     }
     let s0 = e0.stop_reason().to_string();
     let s1 = e1.stop_reason().to_string();
-    tr.ev(json!({"ev":"End","st0":s0,"st1":s1}));
+    // (after a resource-limit failure the two engines are no longer comparable)
+    if !tr.last_was_limit() {
+        tr.ev(json!({"ev":"End","st0":s0,"st1":s1}));
+    }
     json!({"compiled":1,"commits":commits,"probes":probes})
 }
 
